@@ -66,20 +66,20 @@ Definition gwire_of_nums (l : list Z) : gwire :=
   let l3 := skipn (S nh) l2 in
   mkGw nodes holes (Z.eqb (argz l3 0) 1) (gedges_of_nums (arg l3 1) (skipn 2 l3)).
 
-Definition TAG_WIRE := 57. Definition TAG_ERR := 1.
+Definition TAG_WIRE := 57%nat. Definition TAG_ERR := 1%nat.
 
 (* opcodes 0..13 as in GraphMapM.step | 20 ser | 21 roundtrip | 22 deser wire *)
 Definition step (directed debug : bool) (g : gm) (o : line) : gm * list line :=
   let '(code, a) := o in
   match code with
-  | 20 => (g, [match ser_gm directed g with Some w => (TAG_WIRE, gwire_nums w) | None => (TAG_PANIC, []) end])
-  | 21 => match ser_gm directed g with
+  | 20%nat => (g, [match ser_gm directed g with Some w => (TAG_WIRE, gwire_nums w) | None => (TAG_PANIC, []) end])
+  | 21%nat => match ser_gm directed g with
           | Some w => match deser_gm directed w with
                       | Some g' => (g', (TAG_UNIT, []) :: battery directed g')
                       | None => (g, [(TAG_ERR, [])]) end
           | None => (g, [(TAG_PANIC, [])])
           end
-  | 22 => match deser_gm directed (gwire_of_nums a) with
+  | 22%nat => match deser_gm directed (gwire_of_nums a) with
           | Some g' => (g', (TAG_UNIT, []) :: battery directed g')
           | None => (g, [(TAG_ERR, [])])
           end
